@@ -12,6 +12,7 @@ import (
 	"encoding/json"
 	"fmt"
 	"os"
+	"path/filepath"
 	"runtime/debug"
 	"sort"
 	"strconv"
@@ -685,6 +686,35 @@ func TestCorpusIdentity(t *testing.T) {
 				harness.EnumAt(t.Name(), n)
 				do(t, caseT{Path: e.Path, Format: e.Format, Force: force, Mut: mut{Kind: "id"}})
 				do(t, caseT{Path: e.Path, Format: e.Format, Force: force, Mut: mut{Kind: "id"}, Chunk: int(1 + n%7)})
+			}
+		}
+	}
+}
+
+// saved inputs of repaired defects (regressions.json): a seconds-long replay
+// tier; a failure here is reported as regression:<name>, which no known: line
+// can mask
+func TestRegressions(t *testing.T) {
+	if harness.E.Shard != 0 || harness.E.Replay != "" {
+		t.Skip("regressions run in shard 0")
+	}
+	b, err := os.ReadFile(filepath.Join(harness.E.Root, "props", "c06", "regressions.json"))
+	if err != nil {
+		t.Fatalf("regressions.json: %v", err)
+	}
+	var rs []struct {
+		Name string `json:"name"`
+		Case caseT  `json:"case"`
+	}
+	if err := json.Unmarshal(b, &rs); err != nil {
+		t.Fatalf("regressions.json: %v", err)
+	}
+	for i, r := range rs {
+		o := runCase(r.Case)
+		harness.Count(harness.HashInts(606, uint64(i)), true, "regression-input")
+		if o.sig != "" {
+			if harness.Violate(t.Name(), "regression:"+r.Name, o.msg, map[string]any{"data": map[string]any{"case": r.Case}}) {
+				t.Errorf("regression %s: %s", r.Name, o.sig)
 			}
 		}
 	}
